@@ -49,11 +49,12 @@ func main() {
 }
 
 type ev struct {
-	remote  string
-	kind    string // S or F
-	path    string
-	stages  string
-	problem string
+	remote   string
+	kind     string // S or F
+	path     string
+	fullPath string
+	stages   string
+	problem  string
 }
 
 type rec struct {
@@ -100,7 +101,7 @@ func (r *rec) Finish(ctx context.Context, c *app.RequestContext) {
 		problem = "HTTPStart/HTTPFinish missing"
 	}
 	r.mu.Lock()
-	r.log = append(r.log, ev{kind: "F", remote: remoteOf(c), path: string(c.Request.Header.RequestURI()), stages: sb.String(), problem: problem})
+	r.log = append(r.log, ev{kind: "F", remote: remoteOf(c), path: string(c.Request.Header.RequestURI()), fullPath: c.FullPath(), stages: sb.String(), problem: problem})
 	r.mu.Unlock()
 }
 
@@ -141,6 +142,7 @@ func build(cf ecfg) *engine {
 	})
 	e := rig.NewEngine(opt, func(e *route.Engine) {
 		e.Use(recovery.Recovery())
+		e.Any("/ok/:a/:b", handler) // /ok requests are routed (FullPath set), all others reach NoRoute
 		e.NoRoute(handler)
 	})
 	return &engine{e, tr}
@@ -180,6 +182,7 @@ func getLB(w *mon.W, np bool) *lbServer {
 	tr := &rec{}
 	srv, err := loop.Start(np, func(h *server.Hertz) {
 		h.Use(recovery.Recovery())
+		h.Any("/ok/:a/:b", handler)
 		h.NoRoute(handler)
 	}, server.WithTracer(tr), server.WithTraceLevel(stats.LevelDetailed), server.WithMaxRequestBodySize(1000))
 	if err != nil {
@@ -296,6 +299,13 @@ func oneConn(w *mon.W, c *mon.Case, get func(ecfg) *engine, loopback bool) {
 		fmt.Fprintf(&wbuf, "GET %s HTTP/1.1\r\nHost: x\r\n\r\n", path)
 		handled = append(handled, path)
 		outcomes = append(outcomes, oc)
+	}
+	// requests that get as far as routing (the rejected ones do not)
+	reached := map[string]bool{}
+	for _, h := range handled {
+		if !strings.HasPrefix(h, "REJECT:") {
+			reached[h] = true
+		}
 	}
 	stream := wbuf.Bytes()
 	frags := [][]byte{stream}
@@ -417,6 +427,16 @@ func oneConn(w *mon.W, c *mon.Case, get func(ecfg) *engine, loopback bool) {
 			fins = append(fins, x)
 			if x.problem != "" {
 				c.Violate("stage-order", "within the pair of %q: %s (stages recorded: %s)", x.path, x.problem, x.stages)
+				return
+			}
+			// the finish carries that request's data: the route it reports is the one this
+			// request matched (only /ok/… requests are routed), not an earlier request's
+			wantFP := ""
+			if strings.HasPrefix(x.path, "/ok/") && reached[x.path] {
+				wantFP = "/ok/:a/:b"
+			}
+			if x.fullPath != wantFP {
+				c.Violate("finish-data", "the Finish of request %q reports FullPath %q, want %q; trace: %s", x.path, x.fullPath, wantFP, render())
 				return
 			}
 			w.Count("pairs_checked", 1)
